@@ -37,6 +37,26 @@ def fragment_enumeration(cx, inst):
         inst.violation(e.path, "fragment order", "the fragments of a packet are not appended to pending_queue in ascending fragment id")
 
 
+def inst_send_queue_pops(cx, iid):
+    R = cx.R
+    with cx.instance(iid, "T3 WHO-MAY", "the send queue loses packets only through the stale-TimeSensitive drop and the move into the send window", floor=2) as inst:
+        b = R.body("PacketSender::emit_packet")
+        pops = call_sites(b, "VecDeque::pop_front", r"arg1\.packet_send_queue")
+        for loc, lab in pops:
+            inst.site(b, loc, lab)
+        if len(pops) != 2:
+            inst.violation(b.path, "pop_front count", "emit_packet pops the send queue at %d sites; expected the stale drop and the emission" % len(pops))
+        for ob in R.all_bodies():
+            if ob.path != b.path and ob.path.startswith("half_connection::") and call_sites(ob, "VecDeque::pop_front", r"\.packet_send_queue"):
+                inst.violation(ob.path, "pop_front(packet_send_queue)", "packets are removed from the send queue outside emit_packet")
+            for l, t in ob.calls():
+                sn = R.short(t.get("fn") or "")
+                if sn in ("VecDeque::clear", "VecDeque::drain", "VecDeque::truncate", "VecDeque::retain", "VecDeque::pop_back") and t["args"] and re.search(r"packet_send_queue|pending_queue", show(ob.operand_expr(t["args"][0]))):
+                    inst.violation(ob.path, sn, "`%s` discards queued packets/fragments" % sn, at=ob.span_at(l))
+
+
+
+
 def run(cx):
     R = cx.R
     with cx.instance("C05.a", "T3 WHO-MAY (queue discipline)", "packet_send_queue and pending_queue are touched only by push_back/front/pop_front/len/is_empty", floor=8, exact_floor=False) as inst:
@@ -147,22 +167,10 @@ def run(cx):
     # at the new base discards a partially reassembled packet whose earlier fragments were already acknowledged
     from props.shared import window_walks
     window_walks(cx, "C05.s")
-    with cx.instance("C05.e", "T3 WHO-MAY", "the send queue loses packets only through the stale-TimeSensitive drop and the move into the send window", floor=2) as inst:
-        b = R.body("PacketSender::emit_packet")
-        pops = call_sites(b, "VecDeque::pop_front", r"arg1\.packet_send_queue")
-        for loc, lab in pops:
-            inst.site(b, loc, lab)
-        if len(pops) != 2:
-            inst.violation(b.path, "pop_front count", "emit_packet pops the send queue at %d sites; expected the stale drop and the emission" % len(pops))
-        for ob in R.all_bodies():
-            if ob.path != b.path and ob.path.startswith("half_connection::") and call_sites(ob, "VecDeque::pop_front", r"\.packet_send_queue"):
-                inst.violation(ob.path, "pop_front(packet_send_queue)", "packets are removed from the send queue outside emit_packet")
-            for l, t in ob.calls():
-                sn = R.short(t.get("fn") or "")
-                if sn in ("VecDeque::clear", "VecDeque::drain", "VecDeque::truncate", "VecDeque::retain", "VecDeque::pop_back") and t["args"] and re.search(r"packet_send_queue|pending_queue", show(ob.operand_expr(t["args"][0]))):
-                    inst.violation(ob.path, sn, "`%s` discards queued packets/fragments" % sn, at=ob.span_at(l))
-
-
+    from props.shared import resync_walk, sync_refusal_exact
+    resync_walk(cx, "C05.t")
+    sync_refusal_exact(cx, "C05.u")
+    inst_send_queue_pops(cx, "C05.e")
 SELFTEST = [
     {"name": "data emitter gives up for lack of credit without finalising the frame in progress",
      "edits": [{"file": "src/half_connection/emit.rs", "old": "                // Out of bandwidth\n                self.finalize();\n                self.frame_queue.mark_rate_limited();", "new": "                // Out of bandwidth\n                self.frame_queue.mark_rate_limited();"}],
